@@ -3,6 +3,7 @@ package codec
 import (
 	"bytes"
 	"fmt"
+	"strings"
 	"testing"
 
 	"github.com/PowerDNS/lightningstream/snapshot"
@@ -23,6 +24,12 @@ func genMeta(t *rapid.T) model.Meta {
 	s := func(l string) string {
 		if rapid.Bool().Draw(t, l+"?") {
 			return ""
+		}
+		if rapid.IntRange(0, 9).Draw(t, l+"_long") == 0 {
+			// long strings: host names up to 253 bytes, names of a kilobyte or more (every internal
+			// scratch buffer of the encoder has some size)
+			n := rapid.SampledFrom([]int{127, 128, 240, 253, 255, 256, 500, 980, 1000, 1024, 2000, 5000}).Draw(t, l+"_n")
+			return strings.Repeat(rapid.SampledFrom([]string{"a", "h", "é"}).Draw(t, l+"_c"), n)[:n]
 		}
 		return rapid.StringN(0, 20, 40).Draw(t, l)
 	}
